@@ -5,6 +5,7 @@
 package auth
 
 import (
+	"github.com/cnotch/ipchub/utils/simhook"
 	"strings"
 	"sync"
 
@@ -62,6 +63,7 @@ type manager struct {
 }
 
 func (m *manager) Reset(provider UserProvider) {
+	simhook.BeforeRWLock(&m.lock)
 	m.lock.Lock()
 	defer m.lock.Unlock()
 
@@ -92,6 +94,7 @@ func (m *manager) Reset(provider UserProvider) {
 }
 
 func (m *manager) Get(userName string) *User {
+	simhook.BeforeRLock(&m.lock)
 	m.lock.RLock()
 	defer m.lock.RUnlock()
 
@@ -104,6 +107,7 @@ func (m *manager) Get(userName string) *User {
 }
 
 func (m *manager) Del(userName string) error {
+	simhook.BeforeRWLock(&m.lock)
 	m.lock.Lock()
 	defer m.lock.Unlock()
 
@@ -135,6 +139,7 @@ func (m *manager) Del(userName string) error {
 }
 
 func (m *manager) Save(newu *User, updatePassword bool) error {
+	simhook.BeforeRWLock(&m.lock)
 	m.lock.Lock()
 	defer m.lock.Unlock()
 
@@ -178,6 +183,7 @@ func (m *manager) Save(newu *User, updatePassword bool) error {
 }
 
 func (m *manager) Flush() error {
+	simhook.BeforeRWLock(&m.lock)
 	m.lock.Lock()
 	defer m.lock.Unlock()
 
@@ -196,6 +202,7 @@ func (m *manager) Flush() error {
 }
 
 func (m *manager) All() []*User {
+	simhook.BeforeRLock(&m.lock)
 	m.lock.RLock()
 	defer m.lock.RUnlock()
 
